@@ -49,6 +49,20 @@ class C05(OutstationProp):
                 for _r in range(rng.range(1, 2)):
                     ops.append(("rx", MASTER, "none", hexs(req)))
                 seq = (seq + 1) & 15
+            if rng.chance(1, 2):
+                # the retry after a confirm timeout must be the fragment sent before, whatever changed in between
+                # (new event -> class bit, application IIN, broadcast): seeded changes C14_a / C05_b
+                cfg["retries"] = rng.choice(["none", "2", "3"])
+                cfg["retry_delay_ms"] = rng.choice([0, 500, 1000])
+                what = rng.choice(["update", "appiin", "bcast", "update"])
+                if what == "update":
+                    ops.append(("update", "binary", 0, str(rng.below(2)), 1, 400 + rng.below(100)))
+                elif what == "appiin":
+                    ops.append(("appiin", rng.range(1, 15)))
+                else:
+                    ops.append(("rx", MASTER, rng.choice(["opt", "mand", "notreq"]), hexs(frag(rng.below(16), FN["record"]))))
+                for _ in range(rng.range(1, 3)):
+                    ops.append(("sleep", 5000 + int(cfg["retry_delay_ms"]) + 1))
             sid = "c05_u_%d" % i
             out.append(Case(sid, script_text(sid, "outstation", cfg, ops), {"kind": "unsol-wait", "cfg": cfg}))
         return out
